@@ -116,10 +116,11 @@ func genC03(t *rapid.T) c03Case {
 		v.Body.MarkPolarity(m.Pos)
 	}
 	c.Graph = randomGraph(t, g.atoms, nil, 5)
+	genScale(t, c.Graph, 16)
 	c.CfgA = genRepCfg(t, "a")
 	c.CfgB = genRepCfg(t, "b")
 	c.ProfileText = c.Profile.ToY().Print(m.YOpts{})
-	c.DataText = c.Graph.JSONLD(m.LDOpts{})
+	c.DataText = c.Graph.JSONLD(genLDOpts(t, len(c.Graph.Nodes)))
 	if len(c.Profile.Validations) > 0 && rapid.IntRange(0, 5).Draw(t, "collidingPredecessor") == 0 {
 		next := map[string]string{"violation": "warning", "warning": "info", "info": "violation", "": ""}
 		prev := c.Profile
